@@ -43,7 +43,7 @@ func vfGenC07Session(t *rapid.T) vfCaseC07 {
 	n := rapid.IntRange(1, 8).Draw(t, "ntail")
 	for _, r := range tail.Phases[0].Burst {
 		if len(c.Tail) < n {
-			if r.T == "READ" && r.Len > 300 {
+			if r.T == "READ" && r.Len > 300 && r.Len < 262144 {
 				r.Len = 300
 			}
 			c.Tail = append(c.Tail, r)
